@@ -28,9 +28,45 @@ static int nobj;
 static int sticky_actor;          /* some actor makes a note or a counter ready (readiness that cannot be missed) */
 static int64_t ts_ns (nsync_time t) { return (int64_t) t.tv_sec * 1000000000LL + t.tv_nsec; }
 
+/* ---- notes for the lock-step tie with coq/Model/WaitNModel.v (replay/waitn_replay.ml) ----
+   The waitable functions are called through thin wrappers that announce "rb/re" (ready_time begin/end),
+   "qb/qe" (enqueue), "db/de" (dequeue) and then call the real functions of the library. */
+struct wrapv { void *v; const struct nsync_waitable_funcs_s *f; int j; };
+static const char *tm_str (nsync_time t, char *buf) {
+	if (nsync_time_cmp (t, nsync_time_no_deadline) == 0) snprintf (buf, 32, "none");
+	else snprintf (buf, 32, "%lld", (long long) ts_ns (t));
+	return buf;
+}
+static nsync_time w_ready (void *v, struct nsync_waiter_s *nw) {
+	struct wrapv *x = (struct wrapv *) v;
+	nsync_time r;
+	char b[32];
+	vrt_note ("rb %d %d %d", vrt_self (), x->j, nw == NULL);
+	r = (*x->f->ready_time) (x->v, nw);
+	vrt_note ("re %d %d %s", vrt_self (), x->j, tm_str (r, b));
+	return r;
+}
+static int w_enqueue (void *v, struct nsync_waiter_s *nw) {
+	struct wrapv *x = (struct wrapv *) v;
+	int r;
+	vrt_note ("qb %d %d", vrt_self (), x->j);
+	r = (*x->f->enqueue) (x->v, nw);
+	vrt_note ("qe %d %d %d", vrt_self (), x->j, r);
+	return r;
+}
+static int w_dequeue (void *v, struct nsync_waiter_s *nw) {
+	struct wrapv *x = (struct wrapv *) v;
+	int r;
+	vrt_note ("db %d %d", vrt_self (), x->j);
+	r = (*x->f->dequeue) (x->v, nw);
+	vrt_note ("de %d %d %d", vrt_self (), x->j, r);
+	return r;
+}
+static const struct nsync_waitable_funcs_s wrap_funcs = { &w_ready, &w_enqueue, &w_dequeue };
+
 /* lock callbacks that check the ordering contract */
-static void my_lock (void *m) { nsync_mu_lock ((nsync_mu *) m); vrt_acquired (m, 1); vrt_sh_add (LOCKS (vrt_self ()), 1); }
-static void my_unlock (void *m) { vrt_sh_add (UNLOCKS (vrt_self ()), 1); vrt_releasing (m, 1); nsync_mu_unlock ((nsync_mu *) m); }
+static void my_lock (void *m) { nsync_mu_lock ((nsync_mu *) m); vrt_note ("lock %d", vrt_self ()); vrt_acquired (m, 1); vrt_sh_add (LOCKS (vrt_self ()), 1); }
+static void my_unlock (void *m) { vrt_sh_add (UNLOCKS (vrt_self ()), 1); vrt_releasing (m, 1); vrt_note ("unlock %d", vrt_self ()); nsync_mu_unlock ((nsync_mu *) m); }
 
 static int deep_call (int depth, int use_mu, nsync_time dl, int count, struct nsync_waitable_s *pw[]) {
 	volatile char pad[256];
@@ -45,14 +81,17 @@ static int deep_call (int depth, int use_mu, nsync_time dl, int count, struct ns
 static void make_all_ready (void) {
 	int i;
 	for (i = 0; i < nobj; i++) {
-		if (kind_of[i] == 0) nsync_note_notify (notes[i]);
-		else if (kind_of[i] == 1) { if (vrt_sh_add (DEC (i), 1) == 1) nsync_counter_add (ctrs[i], -1); }
-		else { vrt_sh_set (SIGNALLED (i), 1); nsync_cv_broadcast (&cvs[i]); }
+		if (kind_of[i] == 0) { vrt_note ("ab %d notify %d", vrt_self (), i); nsync_note_notify (notes[i]); vrt_note ("ae %d", vrt_self ()); }
+		else if (kind_of[i] == 1) {
+			if (vrt_sh_add (DEC (i), 1) == 1) { vrt_note ("ab %d add %d -1", vrt_self (), i); nsync_counter_add (ctrs[i], -1); vrt_note ("ae %d", vrt_self ()); }
+		} else { vrt_sh_set (SIGNALLED (i), 1); vrt_note ("ab %d broadcast %d", vrt_self (), i); nsync_cv_broadcast (&cvs[i]); vrt_note ("ae %d", vrt_self ()); }
 	}
 }
 
 static void caller (void *a) {
 	struct nsync_waitable_s w[MAXO], *pw[MAXO];
+	struct wrapv wv[MAXO];
+	char desc[64], tb[32];
 	int i, r, use_mu = (int) vrt_rand (2), k = (int) vrt_rand (4);
 	nsync_time dl;
 	if (k == 0 && !sticky_actor) k = 3;      /* without a guaranteed source of readiness always use a deadline */
@@ -64,18 +103,26 @@ static void caller (void *a) {
 		else if (kind_of[i] == 1) { w[i].v = ctrs[i]; w[i].funcs = &nsync_counter_waitable_funcs; }
 		else { w[i].v = &cvs[i]; w[i].funcs = &nsync_cv_waitable_funcs; }
 		cv_sig_before[i] = 0;
+		wv[i].v = w[i].v; wv[i].f = w[i].funcs; wv[i].j = i;
+		w[i].v = &wv[i]; w[i].funcs = &wrap_funcs;
+		desc[2 * i] = "NCV"[kind_of[i]]; desc[2 * i + 1] = ' '; desc[2 * i + 2] = 0;
 	}
-	if (use_mu) { nsync_mu_lock (&mu); vrt_acquired (&mu, 1); }
+	if (nobj == 0) desc[0] = 0;
+	if (use_mu) { nsync_mu_lock (&mu); vrt_note ("mulock %d", vrt_self ()); vrt_acquired (&mu, 1); }
 	{
 		long u0 = vrt_sh_get (UNLOCKS (vrt_self ())), l0 = vrt_sh_get (LOCKS (vrt_self ()));
+		vrt_note ("call %d %d %s %d %s", vrt_self (), use_mu, tm_str (dl, tb), nobj, desc);
 		r = deep_call (3, use_mu, dl, nobj, pw);
+		vrt_note ("ret %d %d", vrt_self (), r);
 		if (use_mu && (vrt_sh_get (UNLOCKS (vrt_self ())) - u0) != (vrt_sh_get (LOCKS (vrt_self ())) - l0)) vrt_fail ("C11", "unlock/lock callbacks unbalanced");
 		if (use_mu && vrt_holders (&mu, 1) != 1) vrt_fail ("C11", "nsync_wait_n returned without holding the mutex");
 	}
 	if (r < 0 || r > nobj) vrt_fail ("C11", "result %d out of range", r);
 	if (r < nobj) {
 		vrt_count ("ret_index");
+		if (kind_of[r] == 0) vrt_note ("ab %d poll %d", vrt_self (), r);
 		if (kind_of[r] == 0 && !nsync_note_is_notified (notes[r])) vrt_fail ("C11", "returned index %d but that note is not notified", r);
+		if (kind_of[r] == 0) vrt_note ("ae %d", vrt_self ());
 		if (kind_of[r] == 1 && nsync_counter_value (ctrs[r]) != 0) vrt_fail ("C11", "returned index %d but that counter is %u", r, nsync_counter_value (ctrs[r]));
 		if (kind_of[r] == 2 && !vrt_sh_get (SIGNALLED (r))) vrt_fail ("C11", "returned index %d but cv %d was never signalled", r, r);
 	} else {
@@ -83,7 +130,7 @@ static void caller (void *a) {
 		if (k == 0) vrt_fail ("C11", "no deadline but returned count");
 		if (vrt_now_ns () < ts_ns (dl)) vrt_fail ("C11", "returned count before the deadline");
 	}
-	if (use_mu) { vrt_releasing (&mu, 1); nsync_mu_unlock (&mu); }
+	if (use_mu) { vrt_releasing (&mu, 1); vrt_note ("muunlock %d", vrt_self ()); nsync_mu_unlock (&mu); }
 	/* the frame of nsync_wait_n (and deep_call) is dead now: wake everything; any leftover registration is touched */
 	make_all_ready ();
 }
@@ -91,11 +138,14 @@ static void caller (void *a) {
 static void actor (void *a) {
 	int i = (int) (long) a;
 	vrt_point ("actor");
-	if (kind_of[i] == 0) nsync_note_notify (notes[i]);
-	else if (kind_of[i] == 1) { if (vrt_sh_add (DEC (i), 1) == 1) nsync_counter_add (ctrs[i], -1); }
-	else {
+	if (kind_of[i] == 0) { vrt_note ("ab %d notify %d", vrt_self (), i); nsync_note_notify (notes[i]); vrt_note ("ae %d", vrt_self ()); }
+	else if (kind_of[i] == 1) {
+		if (vrt_sh_add (DEC (i), 1) == 1) { vrt_note ("ab %d add %d -1", vrt_self (), i); nsync_counter_add (ctrs[i], -1); vrt_note ("ae %d", vrt_self ()); }
+	} else {
 		vrt_sh_set (SIGNALLED (i), 1);
-		if (vrt_rand (2)) nsync_cv_signal (&cvs[i]); else nsync_cv_broadcast (&cvs[i]);
+		if (vrt_rand (2)) { vrt_note ("ab %d signal %d", vrt_self (), i); nsync_cv_signal (&cvs[i]); }
+		else { vrt_note ("ab %d broadcast %d", vrt_self (), i); nsync_cv_broadcast (&cvs[i]); }
+		vrt_note ("ae %d", vrt_self ());
 	}
 	vrt_count ("actor");
 }
@@ -116,6 +166,12 @@ int main (void) {
 			ctrs[i] = nsync_counter_new (zero ? 0 : 1);
 			if (zero) vrt_sh_set (DEC (i), 1);
 		}
+	}
+	for (i = 0; i < nobj; i++) {
+		char tb[32];
+		if (kind_of[i] == 0) vrt_note ("obj %d N %d %s", i, nsync_note_is_notified (notes[i]), tm_str (nsync_note_expiry (notes[i]), tb));
+		else if (kind_of[i] == 1) vrt_note ("obj %d C %u", i, nsync_counter_value (ctrs[i]));
+		else vrt_note ("obj %d V", i);
 	}
 	/* decide the actors first: callers need to know whether readiness is guaranteed */
 	nact = (int) vrt_rand (nobj + 1);
